@@ -355,9 +355,11 @@ def L5(tier):
                 for par, links in (((None,), ()), ((None, None), ((0, 1),)), ((None, 0, 0), ())):
                     lv = [j for j in range(len(par)) if is_leaf(par, j)]
                     est = 4 if cal != 'tiny_direct' else 12
-                    attrs = {j: {'estimate': est, 'resource': 'A'} for j in lv}
-                    yield Scenario(sched, bal, A, mk_tasks(par, attrs), list(links), cals={'A': cal},
-                                   layer='L5'), 'never-available'
+                    for rname in ('A', None):
+                        # rname None: the resource of tasks that name no resource, supplied explicitly
+                        attrs = {j: {'estimate': est, 'resource': rname} for j in lv}
+                        yield Scenario(sched, bal, A, mk_tasks(par, attrs), list(links), cals={rname: cal},
+                                       layer='L5'), 'never-available'
     # hierarchy-closing cycles (all structures with <= 4 tasks in both tiers: cycles through a grandparent need 4)
     for par, links in structures(4, 2, 3):
         if not leaf_cycle(par, links):
